@@ -151,6 +151,8 @@ class C02(Prop):
                 if len(data) > 5000 and B < 7:
                     B = rng.choice([7, 64, 4096])
                 ops.append("open fmt=%s abc=%s B=%d" % (fmt, abc, B))
+                if abc == "text" and rng.random() < 0.3:
+                    ops.append("guessabc")      # esl_sqfile_GuessAlphabet: records the stream while reading a window, then rewinds onto the recording
                 call = rng.choice(["read", "readinfo", "readseq", "readwin", "readblock", "mixed"])
                 k = rng.choice([2, 4, 8])
                 if call == "readwin":
@@ -187,6 +189,9 @@ class C02(Prop):
             if w == "open":
                 if st not in ("ok", "eformat", "enotfound", "eof"):
                     return Failure("monitor", "open returned undocumented status: %s" % l[:60])
+            elif w == "guessabc":
+                if st not in ("ok", "enoalphabet", "enodata", "eformat", "dead", "closed"):
+                    return Failure("monitor", "GuessAlphabet returned undocumented status: %s" % l[:60])
             elif w in ("read", "readinfo", "readseq", "readblock"):
                 if st not in ("ok", "eof", "eformat", "dead", "closed"):
                     return Failure("monitor", "%s returned undocumented status: %s" % (w, l[:60]))
